@@ -364,3 +364,68 @@ Proof.
     destruct Hp as [Ha Hb].
     split; [|split]; [apply pk_clo_app_pc; assumption|exact I|apply pk_sc_cons; assumption].
 Qed.
+
+Lemma pk_inv_same s s' u : clos s' = clos s -> pp s' = pp s -> pk_inv s u -> pk_inv s' u.
+Proof. unfold pk_inv. intros -> ->. exact (fun x => x). Qed.
+
+Lemma pk_inv_done s s' u : clos s' = clos s -> pp s' = PDone -> pk_inv s u -> pk_inv s' u.
+Proof. unfold pk_inv. intros -> ->. intros (H1 & _ & H3). split; [exact H1|split; [exact I|exact H3]]. Qed.
+
+Lemma pk_inv_hstep s u e s' u' : inv_c07 s -> pk_rel s u -> step s e = Some s' -> pk_step u e = Some u' ->
+  pk_inv s' u'.
+Proof.
+  intros Hi [HL HR] H Hu. apply step_cases in H.
+  destruct H as [-> _ -> | -> _ -> | -> _ -> | H | -> H
+                | g s1 _ Hev _ _ Hv H | g s1 _ _ _ _ _ Hv H | g s1 _ _ _ _ _ _ Hv H | g s1 _ _ _ _ _ _ _ Hv H
+                | g -> _ _ _ _ ->].
+  - cbn [pk_step] in Hu. injection Hu as <-. destruct HR as (H1 & _ & H3). split; [exact H1|split; [exact I|exact H3]].
+  - cbn [pk_step] in Hu. injection Hu as <-. exact HR.
+  - cbn [pk_step] in Hu. injection Hu as <-. exact HR.
+  - eapply pk_inv_clo; eassumption.
+  - cbn [pk_step] in Hu. injection Hu as <-.
+    apply step_cleanup_frame in H. destruct H as (_ & _ & Hc & _ & _ & _ & [Hp|Hp] & _).
+    + eapply pk_inv_same; eassumption.
+    + eapply pk_inv_done; eassumption.
+  - assert (Hg1 : gproc s1 = Some g) by (destruct Hv as [[-> Hg]|(_ & _ & -> & _)]; [exact Hg|reflexivity]).
+    assert (HL1 : plast (pp s1) (aget (pk_last u) g)).
+    { destruct Hv as [[-> Hg]|(Hn & _ & -> & _)]; unfold last_rel in HL.
+      - rewrite Hg in HL. exact HL.
+      - rewrite Hn in HL. apply plast_none. exact HL. }
+    assert (HR1 : pk_inv s1 u) by (destruct Hv as [[-> _]|(_ & _ & -> & _)]; exact HR).
+    eapply pk_inv_proc; eassumption.
+  - assert (Hq : pk_step u e = Some u).
+    { apply step_deq_event in H. destruct e; try contradiction; reflexivity. }
+    rewrite Hq in Hu. injection Hu as <-.
+    apply step_deq_frame in H. destruct H as (_ & Hc & Hp & _).
+    eapply pk_inv_same; [exact Hc|exact Hp|]. destruct Hv as [[-> _]|(_ & _ & ->)]; exact HR.
+  - assert (Hq : pk_step u e = Some u).
+    { apply step_ack_event in H. destruct e; try contradiction; reflexivity. }
+    rewrite Hq in Hu. injection Hu as <-.
+    apply step_ack_frame in H. destruct H as (_ & Hc & Hp & _).
+    eapply pk_inv_same; [exact Hc|exact Hp|]. destruct Hv as [[-> _]|(_ & _ & ->)]; exact HR.
+  - assert (Hq : pk_step u e = Some u).
+    { apply step_cleanup_event in H. destruct e; try discriminate H; try reflexivity; destruct k; try discriminate H; reflexivity. }
+    rewrite Hq in Hu. injection Hu as <-.
+    apply step_cleanup_frame in H. destruct H as (_ & _ & Hc & _ & _ & _ & [Hp|Hp] & _).
+    + eapply pk_inv_same; [exact Hc|exact Hp|]. destruct Hv as [[-> _]|(_ & _ & ->)]; exact HR.
+    + eapply pk_inv_done; [exact Hc|exact Hp|]. destruct Hv as [[-> _]|(_ & _ & ->)]; exact HR.
+  - cbn [pk_step] in Hu. injection Hu as <-. exact HR.
+Qed.
+
+Lemma pk_hstep s u e s' u' : inv_c07 s -> pk_rel s u -> step s e = Some s' -> pk_step u e = Some u' ->
+  pk_rel s' u'.
+Proof.
+  intros Hi HR H Hu. split.
+  - rewrite (pk_last_next _ _ _ Hu). apply (last_hstep _ _ _ _ (proj1 HR) H).
+  - eapply pk_inv_hstep; eassumption.
+Qed.
+
+Lemma pk_rel_init : pk_rel bc_init (PkSt [] [] [] []).
+Proof.
+  split; [exact I|]. split; [|split; [exact I|]].
+  - split; [|split]; cbn.
+    + intros c id [].
+    + intros c id g [].
+    + intros k id E. discriminate E.
+  - intros k k' id E. discriminate E.
+Qed.
